@@ -3,7 +3,8 @@ import Amshan.Model.P1
 /-
   Model of han/dlde.py, content side: DataSetValue.parse, DataSet.parse_data_block (repaired: raises
   ValueError on a missing ')' or text after the last value), _parse_p1_datetime, _decode_parsed,
-  decode_p1_readout_content, decode_p1_readout.
+  decode_p1_readout_content (with its guard: content with an octet below 0x20 other than CR and LF is
+  refused before parsing; the parser and decode_p1_readout have no such guard), decode_p1_readout.
 -/
 namespace Amshan.P1Parse
 open Amshan.Gen Amshan.Py Amshan.Cosem
@@ -144,11 +145,19 @@ def decodeParsed (items : List DataSet) : Except PyExc Dict :=
         | .error e => .error e
       else .ok d) (.ok [])
 
-/-- `decode_p1_readout_content(content)` -/
-def decodeContent (content : List Nat) : Except PyExc Dict :=
+/-- an octet below 0x20 other than CR and LF: `char < 0x20 and char not in (0x0D, 0x0A)` -/
+def isControl (c : Nat) : Bool := decide (c < 32) && (c != 13 && c != 10)
+
+/-- `decode_p1_readout_content(content)` after its guard: parse, refuse an empty result, decode -/
+def decodeParsedContent (content : List Nat) : Except PyExc Dict :=
   match parseContent content with
   | .error e => .error e
   | .ok (items, _) => if items.isEmpty then .error .valueError else decodeParsed items
+
+/-- `decode_p1_readout_content(content)`: data lines are printable characters, CR and LF; anything
+    with another control octet is refused ("Content is not printable characters.") BEFORE parsing -/
+def decodeContent (content : List Nat) : Except PyExc Dict :=
+  if content.any isControl then .error .valueError else decodeParsedContent content
 
 /-- `decode_p1_readout(readout)` -/
 def decodeReadout (r : P1.Readout) : Except PyExc Dict :=
